@@ -673,6 +673,7 @@ stockholm_parse_gc(ESL_MSAFILE *afp, ESL_STOCKHOLM_PARSEDATA *pd, ESL_MSA *msa, 
 
   if (! esl_memstrcmp(gc, gclen, "#=GC")) ESL_FAIL(eslEFORMAT, afp->errmsg, "faux #=GC line?");
   if (! n)                                ESL_FAIL(eslEFORMAT, afp->errmsg, "#=GC line missing annotation?");
+  if (memchr(p, '\0', n) != NULL)         ESL_FAIL(eslEFORMAT, afp->errmsg, "NUL byte in #=GC annotation"); /* would end the stored C string early: strlen(annotation) != alen */
   
   if (pd->nblock) 		/* Subsequent blocks */
     {
@@ -763,6 +764,7 @@ stockholm_parse_gr(ESL_MSAFILE *afp, ESL_STOCKHOLM_PARSEDATA *pd, ESL_MSA *msa, 
 
   if (! esl_memstrcmp(gr, grlen, "#=GR")) ESL_FAIL(eslEFORMAT, afp->errmsg, "faux #=GR line?");
   if (! n)                                ESL_FAIL(eslEFORMAT, afp->errmsg, "#=GR line missing annotation?");
+  if (memchr(p, '\0', n) != NULL)         ESL_FAIL(eslEFORMAT, afp->errmsg, "NUL byte in #=GR annotation"); /* would end the stored C string early: strlen(annotation) != alen */
 
   /* Which seqidx is this? likely to be either pd->si-1 (#=GR following a seq) or 
    * pd->si (#=GR preceding a seq) 
